@@ -177,7 +177,6 @@ func included(a, b *nfa) (bool, string) {
 	return true, ""
 }
 
-
 // reIncluded: L(a) ⊆ L(b) in full-match reading; witness is a shortest string in L(a) \ L(b).
 func reIncluded(a, b string) (bool, string, error) {
 	na, err := compileRe(a)
